@@ -51,10 +51,20 @@ def generate(rng, tier: str, index: int) -> dict:
     for p in rng.sample(RW.CONF_PREFIXES, rng.randint(0, 4)):
         static.append({'route': {'p': p, 'nh': rng.choice(['self', '10.0.0.9']), 'v': rng.randint(0, nvar - 1)}, 'mark': rng.choice(['', '', '', 'watchdog dog'])})
 
+    mpls = rng.chance(0.3)
+    for nb in nbrs:
+        nb['mpls'] = mpls
+
     def rnd_route():
         p = rng.choice(prefixes)
         v6 = ':' in p
-        return {'p': p, 'pid': None if v6 else rng.choice(pids), 'nh': '2001:db8::1' if v6 else rng.choice(RW.NEXTHOPS), 'v': rng.randint(0, nvar - 1)}
+        r = {'p': p, 'pid': None if v6 else rng.choice(pids), 'nh': '2001:db8::1' if v6 else rng.choice(RW.NEXTHOPS), 'v': rng.randint(0, nvar - 1)}
+        if mpls and not v6 and rng.chance(0.5):
+            r['pid'] = None
+            r['lab'] = 100 + prefixes.index(p)
+            if rng.chance(0.5):
+                r['rd'] = rng.choice(['65000:1', '65000:2'])
+        return r
 
     def rnd_ops(n, allow_big=True):
         ops = []
@@ -69,7 +79,7 @@ def generate(rng, tier: str, index: int) -> dict:
                 ops.append({'op': 'ann', 'tgt': '*', 'gap': gap, 'route': rnd_route()})
             elif k < 0.85:
                 r = rnd_route()
-                ops.append({'op': 'wd', 'tgt': '*', 'gap': gap, 'route': {'p': r['p'], 'pid': r['pid'], 'nh': r['nh']}})
+                ops.append({'op': 'wd', 'tgt': '*', 'gap': gap, 'route': {k: v for k, v in r.items() if k != 'v'}})
             elif k < 0.9:
                 ops.append({'op': 'flush', 'tgt': '*', 'gap': gap})
             elif k < 0.94:
@@ -137,10 +147,10 @@ def execute(plan: dict) -> dict:
         for i, it in enumerate(intended):
             if k == 'ann':
                 it.announce(op['route'], variants)
-                touched[i][RW.key_of(op['route']['p'], op['route'].get('pid'), it.nb['addpath'])] = now
+                touched[i][RW.rkey(op['route'], it.nb['addpath'])] = now
             elif k == 'wd':
                 it.withdraw(op['route'])
-                touched[i][RW.key_of(op['route']['p'], op['route'].get('pid'), it.nb['addpath'])] = now
+                touched[i][RW.rkey(op['route'], it.nb['addpath'])] = now
             elif k == 'clear':
                 it.clear()
                 for key in it.t:
@@ -283,7 +293,7 @@ def execute(plan: dict) -> dict:
             if sess.decode_errors:
                 violations.append(viol('C11/undecodable-update', sess.decode_errors[0][:400]))
                 return
-            fams = sorted([(1, 1)] + ([(2, 1)] if nb.get('ipv6') else []))
+            fams = sorted(RW.families_of(nb))
             if sorted(sess.table.eors) != fams:
                 violations.append(viol('C11/end-of-rib-markers', f'neighbor {nb["peer_ip"]} session #{sess.index}: End-of-RIB received for {sorted(sess.table.eors)}, negotiated families {fams}', got=str(sorted(sess.table.eors)), want=str(fams)))
                 return
@@ -304,7 +314,7 @@ def execute(plan: dict) -> dict:
                 if want[0] == 'absent' and have is not None:
                     violations.append(viol('C11/withdrawn-route-readvertised', f'neighbor {nb["peer_ip"]} session #{sess.index}: {RW.fmt_key(k)} was withdrawn (last op) but the peer holds {have}'))
                     return
-                if want[0] == 'present' and have != (want[1], want[2]):
+                if want[0] == 'present' and have != tuple(want[1:]):
                     violations.append(viol('C11/route-not-resynchronised', f'neighbor {nb["peer_ip"]} session #{sess.index}: {RW.fmt_key(k)} intended {want[1:]} but the peer holds {have}'))
                     return
             # the End-of-RIB point: everything that was in the table at establishment and untouched since precedes the markers
@@ -322,9 +332,9 @@ def execute(plan: dict) -> dict:
                     keys = []
                     k0 = op['op']
                     if k0 in ('ann', 'wd'):
-                        keys = [RW.key_of(op['route']['p'], op['route'].get('pid'), nb['addpath'])]
+                        keys = [RW.rkey(op['route'], nb['addpath'])]
                     elif k0 == 'clear':
-                        keys = list(it0.t) + [RW.key_of(o['route']['p'], o['route'].get('pid'), nb['addpath']) for o in op_log if o['op'] == 'ann']
+                        keys = list(it0.t) + [RW.rkey(o['route'], nb['addpath']) for o in op_log if o['op'] == 'ann']
                     elif k0 in ('wdog-ann', 'wdog-wd'):
                         keys = list(wd_keys.get(op['name'], ()))
                     if t_proc <= t_est - 1.0:
@@ -349,7 +359,7 @@ def execute(plan: dict) -> dict:
                 for k, want in table0.items():
                     if k in late:
                         continue
-                    if want[0] == 'present' and bv.get(k) != (want[1], want[2]):
+                    if want[0] == 'present' and bv.get(k) != tuple(want[1:]):
                         violations.append(viol('C11/route-after-end-of-rib', f'neighbor {nb["peer_ip"]} session #{sess.index}: {RW.fmt_key(k)} {want[1:]} was in the Adj-RIB-Out at establishment but had not been advertised when the last End-of-RIB was sent (had {bv.get(k)})'))
                         return
                     if want[0] == 'absent':
